@@ -117,7 +117,7 @@ def executor_scenarios(rep):
 
 def main():
     a = parse_args("C15")
-    mods = [("h_c15", 60, None), ("h_c15_2", 120, None)]
+    mods = [("h_c15", 60, None), ("h_c15_2", 120, None), ("h_c15_4", 200, (lambda n: n.startswith("q4")) if a.tier == "quick" else None)]
     if a.tier == "thorough":
         mods.append(("h_c15_3", 200, None))
     rep, cov, assumptions = chcheck.run(
@@ -127,11 +127,13 @@ def main():
         explanation="the real generate_script_block on every list of <=B blocks over B names with dependency lists of length <=2 over B+1 names "
                     "(one never sent) and two script variants per name, against an independent reference (first-occurrence map, union of "
                     "dependencies, Kahn's algorithm): ValueError exactly on conflict/missing/cycle, otherwise each distinct block once, contiguous, "
-                    "in order, after its dependencies. B=2 quick, B=3 thorough; space partitioned into conditions with <=3 symbolic integers")
+                    "in order, after its dependencies. B=2 quick, B=3 thorough, plus lists of four entries with one name sent twice (two name/length "
+                    "vectors quick, 25 thorough); space partitioned into conditions with <=3 symbolic integers")
     insertion_obligation(rep)
     executor_scenarios(rep)
-    cov["bounds"] = {"blocks": 2 if a.tier == "quick" else 3, "deps_per_block": 2}
-    sys.exit(rep.finish(cov, assumptions + ["more than 3 blocks and random sampling beyond the bound are not done (outside the claim)"]))
+    cov["bounds"] = {"blocks": 2 if a.tier == "quick" else 3, "deps_per_block": 2,
+                     "four_entries_one_repeat": "name vectors x dependency-length vectors: 2 (identical repeat) quick, 25 (identical and conflicting repeat) thorough"}
+    sys.exit(rep.finish(cov, assumptions + ["more than 3 blocks (beyond the four-entry one-repeat family) and random sampling beyond the bound are not done (outside the claim)"]))
 
 
 if __name__ == "__main__":
